@@ -120,6 +120,8 @@ pub enum WOp {
     Drop,
     /// wait until this side's reader has seen end-of-stream
     AwaitEof,
+    /// wait (on simulated time) until the open call of stream `tag` has returned
+    AwaitOpened(usize),
 }
 #[derive(Serialize, Deserialize, Clone, Debug, PartialEq)]
 pub enum ROp {
@@ -196,6 +198,10 @@ pub struct BindReq {
     pub ty: u8,
     pub hlen: usize,
     pub delay: usize,
+    /// issue the request only once this endpoint has sent or consumed a Reset (the abort of an
+    /// earlier stream has taken effect here and its flow id is free again)
+    #[serde(default)]
+    pub after_abort: bool,
 }
 #[derive(Serialize, Deserialize, Clone, Debug, PartialEq)]
 pub enum Answer {
@@ -600,6 +606,14 @@ pub async fn writer_actor(cx: Rc<SideCtx>, ops: Vec<WOp>) {
             WOp::Drop => {
                 cx.drop_stream();
                 break 'ops;
+            }
+            WOp::AwaitOpened(t) => {
+                for _ in 0..20_000 {
+                    if cx.led.borrow().streams.get(t).is_none_or(|s| s.open_ret.is_some()) || cx.stream.borrow().is_none() {
+                        break;
+                    }
+                    tokio::time::sleep(Duration::from_millis(1)).await;
+                }
             }
             WOp::AwaitEof => {
                 // (polling on simulated time, not on scheduler rounds: an always-runnable task
@@ -1159,7 +1173,17 @@ async fn run_async(plan: Plan, sched: Sched, record: bool) -> DuoRun {
         let mut host = format!("b{k}:").into_bytes();
         host.extend(std::iter::repeat_n(b'y', b.hlen));
         led.borrow_mut().bind.reqs.push((0, host.clone(), b.port, b.ty, me));
+        let link2 = link.clone();
         sim.spawn(&format!("bind{k}"), CLS_OTHER, async move {
+            if b2.after_abort {
+                for _ in 0..20_000 {
+                    let gone = link2.lock().unwrap().evs.iter().any(|e| matches!(&*e.w, Wire::Frame(crate::refcodec::RFrame::Reset { .. })) && ((e.from == me && e.stage == Stage::Sent) || (e.from != me && e.stage == Stage::Consumed)));
+                    if gone || cancel.is_cancelled() {
+                        break;
+                    }
+                    tokio::time::sleep(Duration::from_millis(1)).await;
+                }
+            }
             sim_yields(b2.delay).await;
             let inv = seq2.tick();
             led2.borrow_mut().bind.reqs[k].0 = inv;
